@@ -118,12 +118,53 @@ class Harness(object):
         snap = snapshot(msg)
         it.p.trace.append(('send', asce.fields.get('name'), snap, pc_id))
         it.p.ghost['sent_count'] = it.p.ghost.get('sent_count', 0) + 1
-        moved = it.p.ghost.setdefault('moved', [])
-        moved.append(msg)
-        # the lazy encoder reads command_set and data_set later: watch stores to both
-        self.watch(msg)
+        # the real send() only queues a lazy generator that reads command_set and data_set when the
+        # provider thread gets to it: from now on the message belongs to the encoder
+        self.set_moved(msg, True)
         for cb in self.on_send:
             cb(it, self, msg, pc_id, asce)
+
+    def set_moved(self, msg, flag):
+        """mark a message, its command set and every command element as handed over (flag may be
+        a symbolic Bool when a loop havocs it)"""
+        msg.fields['_moved'] = flag
+        cs = msg.fields.get('command_set')
+        if isinstance(cs, Obj):
+            cs.fields['_moved'] = flag
+            elems = cs.fields.get('_elems')
+            for kind, key, e in (elems.entries if elems is not None else []):
+                if isinstance(e, Obj):
+                    e.fields['_moved'] = flag
+
+    def install_ownership_monitor(self):
+        """every store to a handed-over message (data set, command set, a command element's value)
+        is a proof obligation `not moved`"""
+        it = self.it
+        dm = it.modules['pynetdicom2.dimsemessages']
+        base = dm.attrs['DIMSEMessage']
+        de = it.hooks.get('DataElement')
+        ds = it.hooks.get('Dataset')
+
+        def on_setattr(it2, obj, name, v):
+            m = obj.fields.get('_moved')
+            if m is None or m is False:
+                return
+            if obj.cls.is_subclass(base):
+                if name not in ('_data_set', 'command_set'):
+                    return
+                what = 'message.%s' % name
+            elif obj.cls is de:
+                if name != 'value':
+                    return
+                what = 'command element %r' % (obj.fields.get('tag'),)
+            elif obj.cls is ds:
+                what = 'command set attribute %s' % name
+            else:
+                return
+            goal = z3.BoolVal(False) if m is True else z3.Not(m)
+            it2.p.oblige('%s#owned' % it2.p.label, goal, kind='ownership', meta={'store_to': what},
+                         assume_after=False)
+        it.hooks['on_setattr'] = on_setattr
 
     def watch(self, msg):
         """after send(): any store to the message (or to its command-set elements) is an
@@ -154,3 +195,20 @@ class Harness(object):
 
 def sends(p, who=None):
     return [e for e in p.trace if e[0] == 'send' and (who is None or e[1] == who)]
+
+
+def install_native_replayer(ctx):
+    """refuted obligations of the service properties are replayed on the real providers under
+    CPython (replay/services.py): the provider is taken from the obligation name"""
+    import re
+    from . import replay
+
+    def replayer(ctx2, ob, model):
+        m = re.search(r'sopclass\.([A-Za-z_\.]+)', ob.name)
+        prov = m.group(1).split('[')[0] if m else None
+        if prov and prov.startswith('StorageCommitment.'):
+            prov = prov
+        r = replay.run_native('services.py', {'provider': prov}, timeout=300)
+        r['searched_provider'] = prov
+        return r
+    ctx.replayers['*'] = replayer
